@@ -130,7 +130,8 @@ namespace _fmt_basics {
 
 			if (--c == 0) {
 				sink.append(locale_opts.thousands_sep);
-				if (!r || !--r)
+				// g stays at the first grouping: grouping[-1] is outside the string.
+				if ((!r || !--r) && g > 0)
 					g--;
 				c = locale_opts.grouping[g];
 			}
